@@ -217,11 +217,11 @@ class C09(Prop):
         "mem_bytes", "floatstring_fits", "samplers_replay", "mt_constants_published", "model_constants_regenerated", "temper_linear",
         "seed0_create_replays", "seed0_init_replays", "rand64_init_replays", "dump_in_bounds", "dump_in_bounds_reinit", "dump_prefix_out_of_bounds",
         "rand64_deal_spec_abstract", "rand64_deal_spec_binary64", "vitter_a_terminates", "rand64_deal_prefix_out_of_range", "rand64_deal_prefix_defect_carrier",
-        "mt_top_bit_clear_within", "roll_accepts_top_clear", "roll_terminates_mt19937", "roll_terminates_on_stream", "roll_terminates_fast", "roll64_terminates", "uniformPositive_terminates")] + ["EaselModel.MTP.fill_correct", "EaselModel.MTP.stream_eq_spec"]
+        "mt_top_bit_clear_within", "roll_accepts_top_clear", "roll_terminates_mt19937", "roll_terminates_on_stream", "roll_terminates_fast", "roll64_terminates", "roll_is_first_accepted_word", "roll64_is_first_accepted_word", "uniformPositive_terminates", "uniformPositive_is_first_nonzero_word")] + ["EaselModel.MTP.fill_correct", "EaselModel.MTP.stream_eq_spec"]
     claimed = True
-    technique = "Lean 4 proof (generic in-place-refill = recurrence theorem, stream invariant by induction, roll/deal arithmetic) + exact differential correspondence of the executable model with the ASan/UBSan-built C generators"
+    technique = "Lean 4 proof (generic in-place-refill = recurrence theorem, stream invariant by induction, roll/deal arithmetic, GF(2) linear-recurrence bound on runs of the top output bit for loop termination) + exact differential correspondence of the executable model with the ASan/UBSan-built C generators"
     level_text = ("Theorems for all seeds and all stream positions: the model's MT19937 / MT19937-64 / LCG output equals the reference recurrence across any number of refills; "
-                  "re-init replays; seed 0 gives a non-zero reported seed; Roll is the unbiased rejection map with equal-size preimages; doubles lie in their intervals; Deal gives m increasing in-range values. "
+                  "re-init replays; seed 0 gives a non-zero reported seed; Roll is the unbiased rejection map with equal-size preimages and, on all three generators and for every seed, a TOTAL function of the stream (first accepted word among the next 19999 outputs; UniformPositive: first non-zero word among the next 624); doubles lie in their intervals; Deal gives m increasing in-range values. "
                   "The hand-written model is tied to the working tree by a bit-exact differential run over operation histories; any divergence is a concrete failing (seed, history).")
     level_note = ("Trusted: Lean kernel + propext/Classical.choice/Quot.sound; the hand model's fidelity is checked (not proved) by the differential run; clock/pid inputs of seed selection are explicit inputs "
                   "(the harness owns time()/getpid()/clock(), so seed 0 is driven and predicted); the integer rejection loops (Roll, rand64_Roll, UniformPositive) are proved to terminate for every seed of the three generators (linear-recurrence argument over GF(2), no equidistribution), the floating-point ones (Gaussian, Gamma, method D) keep fuel; float comparison in esl_rnd_Deal assumed equal to exact comparison (L0). "
@@ -237,7 +237,7 @@ class C09(Prop):
     assumptions = ["choose_arbitrary_seed's time()/getpid()/clock() are explicit inputs of the model (harness interposes the three symbols under an `env` op)",
                    "rejection loops modelled with fuel 10^6. Roll / rand64_Roll / UniformPositive: PROVED to terminate for every seed on MT19937, MT19937-64 and the LCG (within 19999, 19999, 2^31+1 resp. 624/2 draws: roll_terminates_*, roll64_terminates, uniformPositive_terminates); Gaussian, Gamma, Deal64 method D: floating-point acceptance tests, probability-1 termination only (fuel)",
                    "esl_rnd_Deal's double comparison equals the exact rational comparison (n < 2^31; separation 2^20 ulp) - checked by the differential run only",
-                   "esl_rand64_Deal: int64 skeleton modelled in Int (no overflow for 13*m < 2^63, n < 2^63); the abstract-carrier theorem assumes FloatFacts F B (Random/Deal64Abs.lean: 28 facts about single rounded operations, each sampled on binary64 every run) and n <= B = 2^53 (vitter_a's skip loop relies on the integer-valued double `top` reaching exactly 0)",
+                   "esl_rand64_Deal: int64 skeleton modelled in Int (no overflow for 13*m < 2^63, n < 2^63); the abstract-carrier theorem assumes FloatFacts F B (Random/Deal64Abs.lean: 27 facts about single rounded operations, every one used by the proof, each sampled on binary64 every run; the lower halves of exp_unit / mul_int_lt / floor_lt are now derived theorems, not assumptions) and n <= B = 2^53 (vitter_a's skip loop relies on the integer-valued double `top` reaching exactly 0)",
                    "esl_rand64_Deal cost: method D's slow path runs ~n/m iterations per rejected squeeze (observed: m=300, n=2^52 -> S=1.8e12); the generator keeps n/m <= 2e6 for m >= 2 (cost, not range: outside the property)",
                    "test hooks pokeraw/pokeraw64 (overwrite a table word k draws ahead) and env (time/pid/clock) are harness-only; every table content is a state of the generator's single cycle",
                    "Python reference streams in the monitor (MT19937, MT19937-64, LCG, mix3) are written from the published recurrences; self-checked against init_genrand64(5489) -> 14514284786278117030"]
